@@ -156,6 +156,17 @@ def serL : Items → Items
   | (k, v) :: xs => (k, ser v) :: serL xs
 end
 
+mutual
+/-- plain values: what `json.loads` gives (no wrapper flags, no tuples) -/
+def isPlain : T → Bool
+  | .atom _ => true
+  | .node .tup _ _ => false
+  | .node _ w xs => !w && isPlainL xs
+def isPlainL : Items → Bool
+  | [] => true
+  | (_, v) :: xs => isPlain v && isPlainL xs
+end
+
 /-! ### Python equality on JSON values (used by `list.remove`) -/
 
 def atomEq : Atom → Atom → Bool
@@ -193,6 +204,27 @@ def pyEqD : Items → Items → Bool
   | (k, x) :: xs, ys => (match lookup k ys with
       | some y => pyEq x y
       | none => false) && pyEqD xs ys
+end
+
+mutual
+/-- the same JSON document up to the order of object keys (what a database gives back for what was written:
+    SQLite stores the text with sorted keys, PostgreSQL's jsonb reorders keys) -/
+def sameJson : T → T → Bool
+  | .atom a, .atom b => a == b
+  | .atom _, .node _ _ _ => false
+  | .node _ _ _, .atom _ => false
+  | .node k _ xs, .node k' _ ys =>
+      k == k' && (if k == .dict then xs.length == ys.length && sameD xs ys else sameL xs ys)
+def sameL : Items → Items → Bool
+  | [], [] => true
+  | [], _ :: _ => false
+  | _ :: _, [] => false
+  | (_, x) :: xs, (_, y) :: ys => sameJson x y && sameL xs ys
+def sameD : Items → Items → Bool
+  | [], _ => true
+  | (k, x) :: xs, ys => (match lookup k ys with
+      | some y => sameJson x y
+      | none => false) && sameD xs ys
 end
 
 /-! ### the built-in mutators -/
@@ -442,7 +474,7 @@ inductive Op where
   | touch                           -- a tracked method called on a wrapper that is no longer part of the value
   | assign (v : T)                  -- obj.attr = v
   | flush                           -- flush()/commit(): UPDATE if the bit is set
-  | reload                          -- commit, end of session, the value is read again in a new session
+  | reload (v : T)                  -- commit, end of session; a new session reads the value: the database returns `v`
   deriving Repr, Inhabited
 
 def St.load (cfg : Cfg) (dbv : T) : St := { doc := make cfg dbv, dirty := false, db := dbv }
@@ -460,7 +492,9 @@ def step (cfg : Cfg) (s : St) : Op → St × Option Err
   | .touch => ({ s with dirty := true }, none)
   | .assign v => ({ s with doc := make cfg v, dirty := true }, none)
   | .flush => (doFlush s, none)
-  | .reload => (St.load cfg (doFlush s).db, none)
+  | .reload v =>
+      -- the database returns the document that was written, up to the order of object keys
+      if isPlain v && sameJson v (doFlush s).db then (St.load cfg v, none) else (s, some .nav)
 
 def run (cfg : Cfg) : List Op → St → St
   | [], s => s
